@@ -27,7 +27,10 @@ pub static C03: C03Check = C03Check;
 
 const MTYPES: &[&str] = &["SINT", "INT", "DINT", "LINT", "USINT", "UINT", "UDINT", "ULINT", "REAL", "LREAL", "BYTE", "WORD", "DWORD", "LWORD", "TIME", "LTIME"];
 const DEBUG_TYPES: &[&str] = &["BOOL", "SINT", "INT", "DINT", "LINT", "USINT", "UINT", "UDINT", "ULINT", "BYTE", "WORD", "DWORD", "LWORD"];
-const MECHS: &[&str] = &["assign", "init", "fb-input", "fb-inout", "func-return", "struct-field", "array-elem", "subrange-assign", "arith-literal", "for-control", "fb-output-read"];
+const MECHS: &[&str] = &[
+    "assign", "init", "fb-input", "fb-inout", "func-return", "struct-field", "array-elem", "subrange-assign", "arith-literal", "for-control", "fb-output-read", "for-control-empty", "for-control-exit",
+    "subrange-default",
+];
 
 fn lit(ty: &str, v: i64) -> String {
     match ty {
@@ -63,6 +66,25 @@ pub fn matrix_source(mech: &str, dst: &str, src: &str) -> String {
         // the remaining mechanisms depend on dst only
         "arith-literal" => out.push_str(&format!("PROGRAM Main\nVAR\n  d : {dst};\nEND_VAR\nd := d + 1;\nEND_PROGRAM\n")),
         "for-control" => out.push_str(&format!("PROGRAM Main\nVAR\n  d : {dst};\n  n : DINT;\nEND_VAR\nFOR d := 0 TO 2 DO\nn := n + 1;\nEND_FOR;\nEND_PROGRAM\n")),
+        // loops that end before completing one iteration: only the initial store of the control variable happens
+        "for-control-empty" => out.push_str(&format!("PROGRAM Main\nVAR\n  d : {dst};\n  n : DINT;\nEND_VAR\nFOR d := 1 TO 0 DO\nn := n + 1;\nEND_FOR;\nEND_PROGRAM\n")),
+        "for-control-exit" => out.push_str(&format!("PROGRAM Main\nVAR\n  d : {dst};\n  n : DINT;\nEND_VAR\nFOR d := 2 TO 5 DO\nEXIT;\nEND_FOR;\nEND_PROGRAM\n")),
+        // implicit initial value of subranges that exclude 0 (variable, struct field, array element), also after restarts
+        "subrange-default" => {
+            let (lo, hi): (i64, i64) = match dst {
+                "SINT" => (-8, -2),
+                "INT" => (5, 10),
+                "DINT" => (-300000, -100000),
+                "LINT" => (5_000_000_000, 6_000_000_000),
+                "USINT" => (3, 9),
+                "UINT" => (100, 200),
+                "UDINT" => (70000, 80000),
+                _ => (7, 9),
+            };
+            out.push_str(&format!(
+                "TYPE Sub : {dst} ({lo}..{hi}); END_TYPE\nTYPE St : STRUCT f : Sub; g : DINT; END_STRUCT END_TYPE\nPROGRAM Main\nVAR\n  d : Sub;\n  st : St;\n  a : ARRAY[0..2] OF Sub;\n  n : DINT;\nEND_VAR\nn := n + 1;\nEND_PROGRAM\n"
+            ));
+        }
         _ => out.push_str(&format!(
             "FUNCTION_BLOCK Fb\nVAR_OUTPUT\n  y : {src} := {s};\nEND_VAR\nEND_FUNCTION_BLOCK\nPROGRAM Main\nVAR\n  fb : Fb;\n  d : {dst};\nEND_VAR\nfb();\nd := fb.y;\nEND_PROGRAM\n"
         )),
@@ -332,7 +354,14 @@ impl C03Check {
         let mut cells = vec![];
         for (mi, mech) in MECHS.iter().enumerate() {
             for di in 0..MTYPES.len() {
-                if matches!(*mech, "arith-literal" | "for-control") {
+                if *mech == "subrange-default" {
+                    // integer rows only
+                    if di < 8 {
+                        cells.push((mi, di, di));
+                    }
+                    continue;
+                }
+                if matches!(*mech, "arith-literal" | "for-control" | "for-control-empty" | "for-control-exit") {
                     cells.push((mi, di, di));
                     continue;
                 }
@@ -368,7 +397,7 @@ impl C03Check {
         if stats.samples.is_empty() {
             stats.sample(json!({"matrix_cell": case, "source": source}));
         }
-        let class = if mech == "arith-literal" || mech == "for-control" {
+        let class = if matches!(mech, "arith-literal" | "for-control" | "for-control-empty" | "for-control-exit" | "subrange-default") {
             "literal"
         } else if dst == src {
             "same-type"
@@ -399,6 +428,19 @@ impl C03Check {
                 format!("{kind}/{mech}/{class}"),
                 format!("{mech} {dst}<-{src} after 2 cycles: {path} declared {want} holds {got}\n{source}"),
             ));
+        }
+        if mech == "subrange-default" {
+            for mode in [trust_runtime::RestartMode::Cold, trust_runtime::RestartMode::Warm] {
+                if guard("restart", || rt.restart(mode))?.is_err() {
+                    return Ok(());
+                }
+                if let Some((path, want, got, kind)) = declared_walk(&rt).first() {
+                    return Err(Violation::new(
+                        format!("{kind}/restart/{class}"),
+                        format!("{mech} {dst} after a {mode:?} restart: {path} declared {want} holds {got}\n{source}"),
+                    ));
+                }
+            }
         }
         Ok(())
     }
@@ -519,7 +561,7 @@ impl Check for C03Check {
         }
     }
     fn rule(&self) -> &'static str {
-        "cases 0..N-1 enumerate the typed-assignment matrix completely: 11 write mechanisms (assign, initialiser, FB input, FB in-out, function return, struct field, array element, subrange, arithmetic with an untyped literal, FOR control, FB output read) x every ordered pair of 16 elementary numeric/bit/duration types (cells the checker rejects are counted and skipped); the remaining cases are seeded histories of ProgGen programs under cycles with boundary %I images, value faults + continue, warm/cold restarts and save + power cycle; after EVERY operation every program / FB / struct / array slot is compared with its declaration (VarDef.type_id resolved in the type registry, subranges and enums range-checked) and every global with its build-time tag; distinct non-trivial = distinct accepted matrix cells + distinct (program hash) histories"
+        "cases 0..N-1 enumerate the typed-assignment matrix completely: 14 write mechanisms (assign, initialiser, FB input, FB in-out, function return, struct field, array element, subrange, arithmetic with an untyped literal, FOR control incl. loops that end before an iteration completes, FB output read, implicit initial values of subranges excluding 0 incl. restarts) x every ordered pair of 16 elementary numeric/bit/duration types (cells the checker rejects are counted and skipped); the remaining cases are seeded histories of ProgGen programs under cycles with boundary %I images, value faults + continue, warm/cold restarts and save + power cycle; after EVERY operation every program / FB / struct / array slot is compared with its declaration (VarDef.type_id resolved in the type registry, subranges and enums range-checked) and every global with its build-time tag; distinct non-trivial = distinct accepted matrix cells + distinct (program hash) histories"
     }
     fn assumptions(&self) -> Vec<&'static str> {
         vec![
